@@ -257,6 +257,48 @@ def seq_task(p, cfg, rec):
     # Reg.value attribute stays in step with q (representation invariant preserved)
     for n, l in d['regs'].items():
         p.prove('step:inv:%s' % n, core.as_z3_bool((l.value & ((1 << reg_width(l)) - 1)) != l.q.value))
+    # outputs that depend combinationally on the inputs (Mealy outputs, e.g. an edge detector): after the edge the inputs CHANGE
+    # to fresh values and the outputs must follow the reference for the new inputs and the post-edge state
+    if cfg.get('mealy', True) and d['ins']:
+        got_regs = {n: (l.value, l.q.value) for n, l in d['regs'].items()}
+        I2w = symsim.poke_fresh(list(d['ins'].values()), 'j_')
+        I2 = {n: I2w[w] for n, w in d['ins'].items()}
+        if cfg.get('assume'):
+            p.assume(cfg['assume'](Sn, I2))
+        try:
+            with quiet():
+                sim.propagateAll()
+            O2 = out(Sn, I2)
+            allv2 = dict(allv)
+            allv2.update(('j:' + k, v) for k, v in I2.items())
+
+            def replay_mealy(name):
+                def r(values):
+                    st = {k: values['s:' + k] for k in S}
+                    inp = {k: values['i:' + k] for k in I}
+                    inp2 = {k: values['j:' + k] for k in I2}
+                    s_, d_ = _setup(cfg, wrap=False)
+                    with quiet():
+                        for n_, w_ in d_['ins'].items():
+                            w_.put(inp.get(n_, 0))
+                        sim_ = s_.getSimulator()
+                        load_state(d_, st)
+                        sim_.propagateAll()
+                        sim_.clk(1)
+                        for n_, w_ in d_['ins'].items():
+                            w_.put(inp2.get(n_, 0))
+                        sim_.propagateAll()
+                    got = d_['outs'][name].get()
+                    sub = [(S[k], z3.BitVecVal(st[k], S[k].size())) for k in S] + [(I[k], z3.BitVecVal(inp[k], I[k].size())) for k in I] + \
+                          [(I2[k], z3.BitVecVal(inp2[k], I2[k].size())) for k in I2]
+                    e = _cval(O2[name], sub)
+                    return None if got == e else {'phase': 'inputs changed after the edge', 'out': name, 'got': got, 'expected': e, 'from_state': st,
+                                                  'inputs at the edge': inp, 'inputs afterwards': inp2}
+                return r
+            for on, w in d['outs'].items():
+                p.prove('after the edge, inputs changed: out:%s follows the new inputs' % on, neq(w.get(), O2[on]), inputs=allv2, replay=replay_mealy(on))
+        except SymbolicPathError as e:
+            p.inconclusive('inputs changed after the edge', 'exception on a symbolic path: %s' % e)
     terms = {'out:' + on: w.get() for on, w in d['outs'].items()}
     terms.update(('st:' + n, v) for n, v in got_state.items())
 
